@@ -51,7 +51,8 @@ def inner (be : Bool) (flat : List Nat) (off size max : Nat) (src : List Nat) :
     | some (none, _, wide) => .oob wide
     | some (some ch, skip, wide) =>
       if ch = 0xfffe ∧ off = 0 ∧ i = 0 then .fail wide
-      else if ch = 0xfeff ∧ off = 0 ∧ i = 0 then inner be flat off size max src fuel (i + 1) out skip wide
+      -- (a correct-endian byte-order mark is converted like any other character: the encoder that follows drops one leading
+      --  U+FEFF itself; dropping it here as well lost a U+FEFF character after the mark - finding F19)
       else if 0xd800 ≤ ch ∧ ch ≤ 0xdbff then
         let i := i + 1
         let second : Option (Option Nat × Nat) :=
@@ -142,8 +143,7 @@ theorem inner_step_bmp (flat : List Nat) (off size max : Nat) (src : List Nat) (
   have h1 : ¬ max ≤ i := by omega
   have h2 : ¬ (i + 1 = max ∧ size / 2 < max) := fun h => heven h.2
   have h3 : ¬ (ch = 0xfffe ∧ off = 0 ∧ i = 0) := fun h => h0 h.2.2
-  have h4 : ¬ (ch = 0xfeff ∧ off = 0 ∧ i = 0) := fun h => h0 h.2.2
-  simp only [inner, h1, h2, if_false, hrd, h3, h4, hns, hnl]
+  simp only [inner, h1, h2, if_false, hrd, h3, hns, hnl]
 
 /-- one iteration on a surrogate pair that lies inside the region -/
 theorem inner_step_pair (flat : List Nat) (off size max : Nat) (src : List Nat) (fuel i : Nat)
@@ -158,8 +158,7 @@ theorem inner_step_pair (flat : List Nat) (off size max : Nat) (src : List Nat) 
   have h1' : ¬ size / 2 ≤ i + 1 := by omega
   have h2 : ¬ (i + 1 = max ∧ size / 2 < max) := fun h => heven h.2
   have h3 : ¬ (ch = 0xfffe ∧ off = 0 ∧ i = 0) := fun h => h0 h.2.2
-  have h4 : ¬ (ch = 0xfeff ∧ off = 0 ∧ i = 0) := fun h => h0 h.2.2
-  simp only [inner, h1, h1', h2, if_false, hrd, hrd2, h3, h4, hs, hl, and_self, if_true, not_true]
+  simp only [inner, h1, h1', h2, if_false, hrd, hrd2, h3, hs, hl, and_self, if_true, not_true]
 
 theorem enc16_lt (c : Nat) (h : scalar c) : ∀ u ∈ enc16 c, u < 65536 := by
   obtain ⟨h1, h2⟩ := h
@@ -248,25 +247,20 @@ theorem inner16_wf (flat : List Nat) (cs : List Nat) : ∀ (pre : List Nat) (fue
         rw [this, enc8_eq c hc.1]
         simp
 
-/-- the first iteration skips the BOM written by the other converter -/
+/-- the first iteration converts the BOM written by the other converter like any other character -/
 theorem inner_step_bom (flat : List Nat) (size max : Nat) (src : List Nat) (fuel : Nat)
     (out : List Nat) (skip wide : Nat)
     (hi : 0 < max) (heven : ¬ (size / 2 < max)) (hrd : rd16 false src 0 = some 0xfeff) :
     inner false flat 0 size max src (fuel + 1) 0 out skip wide =
-      inner false flat 0 size max src fuel 1 out skip wide := by
+      inner false flat 0 size max src fuel 1 (out ++ enc8 0xfeff) skip wide := by
   have h1 : ¬ max ≤ 0 := by omega
   have h2 : ¬ (0 + 1 = max ∧ size / 2 < max) := fun h => heven h.2
   simp only [inner, h1, h2, if_false, hrd]
   simp
 
-/-- **single-region round trip**: well-formed UTF-8 (not starting with U+FEFF) converted to
-    UTF-16LE by the model of `_dispatch_transform_to_utf16` and back by the model of
-    `_dispatch_transform_from_utf16` is the original byte string, with no wide load and no skip -/
-theorem utf8_utf16_roundtrip_single (cs : List Nat) (hs : ∀ c ∈ cs, scalar c) (hne : cs ≠ [])
-    (hb : cs.head? ≠ some 0xfeff) :
-    ∃ us, Utf8P.toUtf16 [cs.flatMap enc] = .ok us 0 ∧
-      fromUtf16 false [bytesLE us] = .ok (cs.flatMap enc) 0 0 := by
-  refine ⟨0xfeff :: cs.flatMap enc16, Utf8P.single_region_wf cs hs hne hb, ?_⟩
+/-- UTF-16LE text with its byte-order mark converts to the UTF-8 of the mark followed by the UTF-8 of the text -/
+theorem fromUtf16_bom_wf (cs : List Nat) (hs : ∀ c ∈ cs, scalar c) :
+    fromUtf16 false [bytesLE (0xfeff :: cs.flatMap enc16)] = .ok (enc 0xfeff ++ cs.flatMap enc) 0 0 := by
   have hlen := bytesLE_length (0xfeff :: cs.flatMap enc16)
   have hall : ∀ u ∈ (0xfeff :: cs.flatMap enc16), u < 65536 := by
     intro u hu
@@ -282,34 +276,43 @@ theorem utf8_utf16_roundtrip_single (cs : List Nat) (hs : ∀ c ∈ cs, scalar c
     Nat.sub_zero, List.drop_zero, hlen, hmax]
   rw [inner_step_bom _ _ _ _ _ _ _ _ (by simp) (by omega) hrd]
   have := inner16_wf (bytesLE (0xfeff :: cs.flatMap enc16)) cs [0xfeff]
-    (0xfeff :: cs.flatMap enc16).length [] 0 0 (0xfeff :: cs.flatMap enc16) (by simp)
+    (0xfeff :: cs.flatMap enc16).length ([] ++ enc8 0xfeff) 0 0 (0xfeff :: cs.flatMap enc16) (by simp)
     (by intro u hu; simp at hu; omega) hs (by simp) (by simp)
-  simp only [List.length_singleton, List.nil_append] at this
-  rw [this]
+  simp only [List.length_singleton] at this
+  rw [this, enc8_eq 0xfeff (by decide)]
   simp
 
-/-- the glue applied after the converter leaves such a text alone -/
-theorem withoutBom_id (cs : List Nat) (hs : ∀ c ∈ cs, scalar c) (hb : cs.head? ≠ some 0xfeff) :
-    withoutBom (cs.flatMap enc) = cs.flatMap enc := by
-  cases cs with
-  | nil => simp [withoutBom]
-  | cons c cs =>
-    have hc := hs c (by simp)
-    have hne : c ≠ 0xfeff := by intro e; exact hb (by simp [e])
-    unfold withoutBom
-    rw [if_neg]
-    intro h
-    simp only [List.flatMap_cons] at h
-    unfold enc at h
-    by_cases h1 : c < 0x80
-    · simp [h1] at h; omega
-    · by_cases h2 : c < 0x800
-      · simp [h1, h2] at h; omega
-      · by_cases h3 : c < 0x10000
-        · simp [h1, h2, h3] at h; omega
-        · simp [h1, h2, h3] at h; omega
+theorem withoutBom_bom (x : List Nat) : withoutBom (enc 0xfeff ++ x) = x := by
+  have he : enc 0xfeff = [0xef, 0xbb, 0xbf] := by decide
+  rw [he]; simp [withoutBom]
+
+open Utf8P (dropBom) in
+/-- **single-region round trip of any well-formed text**: UTF-8 converted to UTF-16LE by the model of
+    `_dispatch_transform_to_utf16`, back by the model of `_dispatch_transform_from_utf16` (as repaired: F19) and through the
+    `encode` hook of the UTF-8 format is the original byte string apart from ONE leading byte-order mark - a U+FEFF character
+    that follows the mark is kept -/
+theorem utf8_utf16_roundtrip_single (cs : List Nat) (hs : ∀ c ∈ cs, scalar c) (hne : cs ≠ []) :
+    ∃ us out, Utf8P.toUtf16 [cs.flatMap enc] = .ok us 0 ∧
+      fromUtf16 false [bytesLE us] = .ok out 0 0 ∧ withoutBom out = (dropBom cs).flatMap enc := by
+  by_cases hb : cs.head? = some 0xfeff
+  · cases cs with
+    | nil => exact absurd rfl hne
+    | cons c cs' =>
+      have hc : c = 0xfeff := by simpa using hb
+      subst hc
+      have hs' : ∀ c ∈ cs', scalar c := fun c h => hs c (by simp [h])
+      exact ⟨_, _, Utf8P.single_region_bom cs' hs', fromUtf16_bom_wf cs' hs', by rw [withoutBom_bom]; rfl⟩
+  · refine ⟨_, _, Utf8P.single_region_wf cs hs hne hb, fromUtf16_bom_wf cs hs, ?_⟩
+    rw [withoutBom_bom]
+    cases cs with
+    | nil => rfl
+    | cons c cs' =>
+      have : c ≠ 0xfeff := by intro e; exact hb (by simp [e])
+      unfold dropBom
+      split
+      · rename_i h; injection h with h1 _; exact absurd h1 this
+      · rfl
 
 #print axioms inner16_wf
 #print axioms utf8_utf16_roundtrip_single
-#print axioms withoutBom_id
 end Utf16P
